@@ -891,8 +891,9 @@ package stats
 //@ assume func NormalDist.InvCDF@real
 //@   deterministic
 //@   model real
-//@   trusted Acklam approximation + one Halley step (accuracy not decided); used facts: deterministic, and the quantile of the lower half lies at or below the mean
+//@   trusted Acklam approximation + one Halley step: ASSUMED exact inverse of the normal CDF (accuracy is the undecided headline of C05); used facts: deterministic, CDF(InvCDF(p)) = p, and the quantile of the lower half lies at or below the mean
 //@   ensures p <= 0.5 && n.Sigma >= 0 ==> x <= n.Mu
+//@   ensures 0 < p && p < 1 && n.Sigma > 0 ==> ncdf(n.Mu, n.Sigma, x) == p && ncdf(n.Mu, n.Sigma, 2 * n.Mu - x) == 1 - p
 //@   assigns nothing
 
 //@ spec bsum(d BinomialDist, l int, r int) float64 = r <= l ? 0 : bsum(d, l, r-1) + d.PMF(r-1)
@@ -908,12 +909,13 @@ package stats
 //@ func QuantileCI
 //@   use bsum_left
 //@   model real
-//@   requires n >= 1 && 0 <= q && q <= 1 && (n > quantileCIApproxThreshold ==> 0 < q && q < 1)
+//@   requires n >= 1 && 0 <= q && q <= 1 && 0 <= confidence && (n > quantileCIApproxThreshold ==> 0 < q && q < 1)
 //@   ensures [copy]    result.N == n && result.Quantile == q
 //@   ensures [orders]  0 <= result.LoOrder && result.LoOrder < result.HiOrder && result.HiOrder <= n + 1
 //@   ensures [certain] confidence >= 1 ==> result.LoOrder == 0 && result.HiOrder == n + 1 && result.Confidence == 1
 //@   ensures [exact-mass] confidence < 1 && n <= quantileCIApproxThreshold ==> result.Confidence == bsum(BinomialDist{n, q}, result.LoOrder, result.HiOrder)
 //@   ensures [exact-enough] confidence < 1 && n <= quantileCIApproxThreshold ==> result.Confidence >= confidence || (BinomialDist{n, q}.PMF(result.LoOrder - 1) <= 0 && BinomialDist{n, q}.PMF(result.HiOrder) <= 0)
-//@   loop 1 invariant 0 <= l && l <= x && x < r && r <= n + 1 && accum == bsum(samp, l, r) && lp == samp.PMF(l - 1) && rp == samp.PMF(r) && samp.N == n && samp.P == q && 0 <= x && x <= n
-//@   check @ret2 [normal-outward] n > quantileCIApproxThreshold && !result0.Ambiguous ==> true
+//@   loop 1 invariant 0 <= l && l <= x && x < r && r <= n + 1 && accum == bsum(samp, l, r) && lp == samp.PMF(l - 1) && rp == samp.PMF(r) && samp.N == n && samp.P == q && 0 <= x && x <= n && lp >= 0 && rp >= 0 && (l == 0 ==> lp == 0) && (r == n + 1 ==> rp == 0)
+//@   ensures [normal-enough] confidence < 1 && n > quantileCIApproxThreshold ==> result.Confidence >= confidence
+//@   ensures [conf-range]    confidence < 1 && n > quantileCIApproxThreshold ==> result.Confidence <= 1
 //@   assigns nothing
